@@ -6,6 +6,7 @@
   on every run (Gen/Severity.lean); the theorems below are stated over them.
 -/
 import ClairModel.Proofs.Feeds
+import ClairModel.Proofs.FeedVex
 import ClairModel.Gen.Severity
 import ClairModel.Gen.Feeds
 
@@ -482,5 +483,172 @@ theorem osv_encoded_vulnerability (eco : OsvEcosystems) (proto : Vuln) (ecosyste
     | none => rfl
     | some cl => cases cl <;> rfl
   simp [cellVuln, hr, he, hne]
+
+/-! ## Part 5: Red Hat VEX (CSAF) -/
+
+/-- Product-tree resolution of the two shapes Red Hat publishes, for ANY list of
+    relationships: a product id defined as "package `c` as a component of
+    repository `r`" resolves to (c, no module, r); one defined as "package `c`
+    as a component of `rm`", where `rm` is "module `m` as a component of
+    repository `r`", resolves to (c, m, r).  (`c`, `m`, `r` are not themselves
+    defined by relationships.) -/
+theorem vex_relationships_resolved (rels : List VexRel) (pid c rm m r cat cat' : String)
+    (hc : findRel rels c = none) (hr : findRel rels r = none) :
+    (findRel rels pid = some ⟨cat, pid, c, r⟩ → walkRels rels pid = some (c, "", r)) ∧
+    (findRel rels pid = some ⟨cat, pid, c, rm⟩ → findRel rels rm = some ⟨cat', rm, m, r⟩ → findRel rels m = none →
+      walkRels rels pid = some (c, m, r)) :=
+  ⟨fun h => walkRels_two rels pid c r cat h hc hr,
+   fun h hrm hm => walkRels_three rels pid c rm m r cat cat' h hc hrm hm hr⟩
+
+/-- A product id without a `default_component_of` relationship yields nothing,
+    under either status. -/
+theorem vex_unrelated_product_skipped (env : VexEnv) (d : VexDoc) (proto : Vuln) (pid : String)
+    (h : findRel d.rels pid = none) :
+    knownOne env d proto pid = .skip ∧ resolveFixed d pid = none := by
+  simp [knownOne, resolveFixed, walkRels, h]
+
+/-- `fixed` products, dedup across product ids (the main statement).  If every
+    product id that resolves is an rpm with an arch qualifier whose entry is kept
+    (`GoodFixed`: its repository CPE unbinds, its score parses, it is not
+    disregarded), then `fixedVulnerabilities` returns exactly one vulnerability
+    per distinct package key (repository, module, name, fixed version), in
+    order of first occurrence: the vulnerability of the first product with that
+    key, its arch pattern extended by `|arch` for every later product with the
+    same key.  (`_partial`: products without arch that repeat a key rebuild
+    the entry in place; container images go through the ranger.) -/
+theorem vex_products_exact_partial (env : VexEnv) (d : VexDoc) (proto : Vuln) (pids : List String)
+    (H : ∀ pid ∈ pids, ∀ p, resolveFixed d pid = some p → GoodFixed env d proto p) :
+    ∃ st, fixedVulns env d proto {} pids = some st ∧
+      st.entries = grpSpec (freshEntry env d proto) (pids.filterMap (resolveFixed d)) := by
+  obtain ⟨st', h1, h2, h3⟩ := fixedLoop_grp env d proto pids { ({} : FxState) with adds := [] } H
+  refine ⟨resetLowest st', by simp [fixedVulns, h1], ?_⟩
+  rw [resetLowest_noAdds st' (by simpa using h3), h2, grpLoop_eq _ (freshEntry_key env d proto)]
+  simp only [List.map_nil, List.nil_append, List.any_nil, Bool.not_false]
+  congr 1
+  exact List.filter_eq_self.2 (fun _ _ => rfl)
+
+/-- The vulnerability `applyFixed` leaves for a product: fixed version, package
+    name, module, binary kind of the product; identifier, description, issue
+    date, updater of the entry it started from; with an arch qualifier that arch
+    and the pattern-match operation. -/
+theorem vex_fixed_vulnerability (env : VexEnv) (d : VexDoc) (p : FxProd) (base : FxEntry) (n : Nat)
+    (v : Vuln) (rid : Option Nat) (keep : Bool) (add : Option RangerAdd)
+    (h : applyFixed env d p base n = .done v rid keep add) :
+    v.fixed = p.fixedIn ∧ v.pkgName = p.pkgName ∧ v.pkgModule = p.modName ∧ v.pkgKind = "binary" ∧ v.hasPkg = true ∧
+    v.name = base.v.name ∧ v.desc = base.v.desc ∧ v.issued = base.v.issued ∧ v.updater = base.v.updater ∧ v.dist = base.v.dist ∧
+    (p.arch ≠ "" → v.pkgArch = p.arch ∧ v.archOp = 3) := by
+  have hs : ∃ repo rng lnk sv ns, v = { startFixed p base.v with repo := repo, range := rng, links := lnk, sev := sv, nsev := ns } := by
+    unfold applyFixed at h
+    simp only at h
+    by_cases hrpm : p.purlType = "rpm"
+    · simp only [hrpm, if_true] at h
+      split at h
+      · cases h
+      · rename_i repo _
+        obtain ⟨lnk, hv⟩ := finishFixed_frame _ _ _ _ _ _ _ _ _ _ h
+        exact ⟨repo, (startFixed p base.v).range, lnk, v.sev, v.nsev, hv⟩
+    · simp only [hrpm, if_false] at h
+      by_cases hoci : p.purlType = "oci"
+      · simp only [hoci, if_true] at h
+        split at h
+        · obtain ⟨lnk, hv⟩ := finishFixed_frame _ _ _ _ _ _ _ _ _ _ h
+          exact ⟨env.goldRepo, _, lnk, v.sev, v.nsev, hv⟩
+        · cases h
+          exact ⟨env.goldRepo, none, _, _, _, rfl⟩
+      · simp only [hoci, if_false] at h
+        cases h
+        exact ⟨_, _, _, _, _, rfl⟩
+  obtain ⟨repo, rng, lnk, sv, ns, rfl⟩ := hs
+  unfold startFixed
+  by_cases ha : p.arch = "" <;> simp [ha]
+
+
+/-- `known_affected`: when no product runs into an error (CPE that does not
+    unbind, CVSS vector that does not parse) the result is, in order, one
+    vulnerability per product id that `knownOne` emits — each product is decided
+    on its own. -/
+theorem vex_known_affected_exact (env : VexEnv) (d : VexDoc) (proto : Vuln) (pids : List String)
+    (H : ∀ pid ∈ pids, knownOne env d proto pid ≠ .err) :
+    knownAffected env d proto pids = some (pids.filterMap fun pid => (knownOne env d proto pid).toOption) :=
+  knownAffected_eq env d proto pids (fun pid hp he => H pid hp he)
+
+/-- Severity and disregard, shared by both loops.  With an impact threat the
+    normalized severity is `NormalizeSeverity(details)` and the product is kept;
+    without one the severity stays the prototype's and the product is
+    disregarded exactly when it has a score whose base score is 0.0.  The
+    severity string becomes the score's vector when there is a score. -/
+theorem vex_score_and_impact (env : VexEnv) (d : VexDoc) (pid : String) (v : Vuln) :
+    (∀ t, findImpact d pid = some t → findScore d pid = none →
+      applyScore env d pid v = some ({ v with nsev := env.sev t.details }, true)) ∧
+    (∀ t s vec, findImpact d pid = some t → findScore d pid = some s → scoreVector s = some vec →
+      applyScore env d pid v = some ({ v with sev := vec, nsev := env.sev t.details }, true)) ∧
+    (∀ s vec, findImpact d pid = none → findScore d pid = some s → scoreVector s = some vec →
+      applyScore env d pid v = some ({ v with sev := vec }, !scoreZero s)) ∧
+    (findImpact d pid = none → findScore d pid = none → applyScore env d pid v = some (v, true)) ∧
+    (∀ s, findScore d pid = some s → scoreVector s = none → applyScore env d pid v = none) := by
+  refine ⟨?_, ?_, ?_, ?_, ?_⟩
+  · intro t ht hs; simp [applyScore, ht, hs]
+  · intro t s vec ht hs hv; simp [applyScore, ht, hs, hv]
+  · intro s vec ht hs hv
+    cases hz : scoreZero s <;> simp [applyScore, ht, hs, hv, hz]
+  · intro ht hs; simp [applyScore, ht, hs]
+  · intro s hs hv; simp [applyScore, hs, hv]
+
+/-- Every normalized severity the VEX parser assigns is one of the six values:
+    it is the prototype's Unknown or the Red Hat table's value. -/
+theorem vex_severity_in_range (env : VexEnv) (d : VexDoc) (pid : String) (v w : Vuln) (k : Bool)
+    (hsev : env.sev = normalize codeRhelMode codeRhel codeRhelDefault) (hv : v.nsev < 6)
+    (h : applyScore env d pid v = some (w, k)) : w.nsev < 6 := by
+  have hn : ∀ s, env.sev s < 6 := by
+    intro s; rw [hsev]; exact normalize_lt _ _ _ _ s (by decide) (by decide)
+  unfold applyScore at h
+  simp only at h
+  split at h
+  · cases h
+  · rename_i v' hv'
+    have hv'n : v'.nsev = v.nsev := by
+      cases hs : findScore d pid with
+      | none => rw [hs] at hv'; cases hv'; rfl
+      | some s =>
+        rw [hs] at hv'
+        cases hvec : scoreVector s with
+        | none => simp [hvec] at hv'
+        | some vec => simp [hvec] at hv'; rw [← hv']
+    split at h
+    · cases h; exact hn _
+    · split at h
+      · split at h <;> (cases h; rw [hv'n]; exact hv)
+      · cases h; rw [hv'n]; exact hv
+
+/-- A document whose only vulnerability lists no product under `fixed` or
+    `known_affected` (its products are `known_not_affected`,
+    `under_investigation`, … — `otherStatus`, which nothing reads) yields no
+    vulnerability and is reported as deleted. -/
+theorem vex_not_affected_nothing (env : VexEnv) (d : VexDoc) (v : VexVuln)
+    (hst : d.status ≠ "deleted") (hv : d.vulns = [v]) (hf : v.fixed = []) (hk : v.known = []) :
+    vexParse env [d] = some ([], [d.id]) := by
+  simp [vexParse, vexDocs, hst, hv, vexDocVulns, fixedVulns, fixedLoop, hf, hk, knownAffected, resetLowest, lowestAdds, setAssoc]
+
+/-- A deletion record yields no vulnerability and names the advisory as deleted. -/
+theorem vex_deleted_record (env : VexEnv) (d : VexDoc) (hst : d.status = "deleted") :
+    vexParse env [d] = some ([], [d.id]) := by
+  simp [vexParse, vexDocs, hst]
+
+/-- Module of an rpm product: for the purl `pkg:rpmmod/redhat/<name>@<stream>:<version>:<context>`
+    the module is `<name>:<stream>` (the version is cut at its first colon). -/
+theorem vex_module_name (id name version : String) (cpeH : Option String) :
+    moduleName (some { id := id, cpe := cpeH, purl := .ok { type := "rpmmod", ns := "redhat", name := name, version := version } }) =
+      name ++ ":" ++ cutBefore ':' version := by
+  simp [moduleName]
+
+/-- Fixed version and package name of an rpm purl: `epoch:version` with epoch 0
+    when the purl has no epoch qualifier; the purl's name. Kernel packages and
+    rpms outside the `redhat` namespace are not ingested. -/
+theorem vex_rpm_purl (u : Purl) (h : u.type = "rpm") :
+    fixedInVersion u = some (u.epoch.getD "0" ++ ":" ++ u.version) ∧ purlPackageName u = some u.name ∧
+    (startsWith u.name "kernel" = true → checkPURL u = false) ∧ (u.ns ≠ "redhat" → checkPURL u = false) := by
+  refine ⟨by simp [fixedInVersion, h], by simp [purlPackageName, h], ?_, ?_⟩
+  · intro hk; simp [checkPURL, hk]
+  · intro hn; simp [checkPURL, h, hn]
 
 end ClairModel.Props.C14
